@@ -23,10 +23,12 @@ def set_current(p):
 class Z3Tr:
     """Sym / SymBool -> z3 (reals).  Collects definitional constraints of the symbols used."""
 
-    def __init__(self):
+    def __init__(self, abstract=False):
         self.vars = {}
         self.defs_done = set()
         self.side = []          # definitional constraints (always true)
+        self.abstract = abstract
+        self.abs_vars = {}      # normalised polynomial key -> fresh real (term abstraction, sound for PROVING only)
 
     def var(self, sid):
         v = self.vars.get(sid)
@@ -59,6 +61,46 @@ class Z3Tr:
     def poly(self, p):
         if not p:
             return z3.RealVal(0)
+        if self.abstract:
+            return self._poly_abstract(p)
+        return self._poly_exact(p)
+
+    def _is_def(self, sid):
+        return T.syms[sid].kind.startswith("def:")
+
+    def _poly_abstract(self, p):
+        """p = (terms that are a constant times ONE defined ite/sqrt symbol) + rest;  the non-constant `rest`
+        becomes q * t_key with a fresh real t_key (key = rest normalised by its leading coefficient).
+        Every model of the original formula extends to a model of the abstraction (t := value of rest),
+        so validity of the abstracted VC implies validity of the original: sound for PROVING only."""
+        lin, rest = [], {}
+        for mono, c in p.items():
+            if len(mono) == 1 and mono[0][1] == 1 and T.syms[mono[0][0]].kind in ("def:ite", "def:sqrt"):
+                lin.append(z3.RealVal(str(c)) * self.var(mono[0][0]))
+            else:
+                rest[mono] = c
+        terms = list(lin)
+        if rest:
+            if len(rest) == 1 and () in rest:
+                terms.append(z3.RealVal(str(rest[()])))
+            else:
+                const = rest.pop((), None)
+                lead_m = min(rest)
+                lead_c = rest[lead_m]
+                key = frozenset((m, c / lead_c) for m, c in rest.items())
+                t = self.abs_vars.get(key)
+                if t is None:
+                    if len(rest) == 1 and len(lead_m) == 1 and lead_m[0][1] == 1:
+                        t = self.var(lead_m[0][0])       # a single symbol: keep it
+                    else:
+                        t = z3.Real(f"abs!{len(self.abs_vars)}")
+                    self.abs_vars[key] = t
+                terms.append(z3.RealVal(str(lead_c)) * t)
+                if const is not None:
+                    terms.append(z3.RealVal(str(const)))
+        return terms[0] if len(terms) == 1 else z3.Sum(terms)
+
+    def _poly_exact(self, p):
         terms = []
         for m, c in p.items():
             t = None
